@@ -221,6 +221,8 @@ def r_restore(ctx: RuleCtx, col: Collector):
 
     advance = [nd for nd in cfg.simple_nodes() if nd.ast is not None and any(
         isinstance(x, ast.Call) and norm(x.func) == f"{it_name}.iternext" for ex in node_exprs(nd) for x in ast.walk(ex))]
+    # `for _ in it:` advances the iterator each time control returns to the loop header
+    advance += [nd for nd in cfg.simple_nodes() if nd.kind == FOR and nd.ast is not None and norm(nd.ast.iter) == it_name]
     if not advance:
         raise AnalysisError("finite_difference: iterator advance not found")
     for target in (elem, sig_state):
@@ -321,6 +323,8 @@ def r_fd_writeback(ctx: RuleCtx, col: Collector):
             isinstance(a.value, ast.Name) and a.value.id == snap
 
     def is_use(nd):
+        if nd.kind == FOR and nd.ast is not None and norm(nd.ast.iter) == it_name:
+            return True             # `for _ in it:` advances the iterator at the loop header
         for ex in node_exprs(nd):
             for x in ast.walk(ex):
                 if isinstance(x, ast.Call) and isinstance(x.func, ast.Attribute) and (
@@ -357,6 +361,10 @@ def r_fd_writeback(ctx: RuleCtx, col: Collector):
             col.ok(where_of(f), f.rel, line_of(e.ast), stmt_key(e.ast), f"followed by '{sig_state} = {snap}' on every feasible path")
 
 
+def _names_of(e: ast.AST) -> Set[str]:
+    return {x.id for x in ast.walk(e) if isinstance(x, ast.Name)}
+
+
 @rule("R-SIBLING-EXC", floor=1)
 def r_sibling_exc(ctx: RuleCtx, col: Collector):
     """Package-wide: `try` bodies of one function that are equal up to real/imag (sibling passes over the real and
@@ -371,6 +379,10 @@ def r_sibling_exc(ctx: RuleCtx, col: Collector):
             if isinstance(n, ast.Assign) and re.search(r"\b(real|imag)\b", U(n.value)):
                 for t_ in n.targets:
                     partfns |= {x.id for x in ast.walk(t_) if isinstance(x, ast.Name)}
+        # a table of directions walked by a loop: for step, part, label in [(dx, np.real, ..), (dx*1j, np.imag, ..)]
+        for n in ast.walk(f.node):
+            if isinstance(n, ast.For) and (_names_of(n.iter) & partfns):
+                partfns |= {x.id for x in ast.walk(n.target) if isinstance(x, ast.Name)}
         for t in tries:
             def applied(stmts):
                 return {x.func.id for s_ in stmts for x in ast.walk(s_) if isinstance(x, ast.Call) and isinstance(x.func, ast.Name)
